@@ -120,6 +120,25 @@ package py
 //@   ensures left: is(other, Tuple) ==> forall k in [0, len(a)): r.(Tuple)[k] == old(a[k])
 //@   ensures right: is(other, Tuple) ==> forall k in [0, len(other.(Tuple))): r.(Tuple)[len(a) + k] == old(other.(Tuple)[k])
 //@   ensures fresh: is(other, Tuple) && len(r.(Tuple)) > 0 ==> fresh(r.(Tuple))
+//@   ensures operands: arr(a) == old(arr(a)) && (is(other, Tuple) ==> arr(other.(Tuple)) == old(arr(other.(Tuple))))
+
+// tuple += and the reflected form build a new tuple exactly like +: tuples are immutable, a result that shares storage
+// with an operand (append into spare capacity) would let a later += overwrite another tuple
+//@ func (Tuple).M__iadd__(a, other) (r, err)
+//@   ensures ni: !is(other, Tuple) ==> r == NotImplemented && err == nil
+//@   ensures shape: is(other, Tuple) ==> err == nil && is(r, Tuple) && len(r.(Tuple)) == len(a) + len(other.(Tuple))
+//@   ensures left: is(other, Tuple) ==> forall k in [0, len(a)): r.(Tuple)[k] == old(a[k])
+//@   ensures right: is(other, Tuple) ==> forall k in [0, len(other.(Tuple))): r.(Tuple)[len(a) + k] == old(other.(Tuple)[k])
+//@   ensures fresh: is(other, Tuple) && len(r.(Tuple)) > 0 ==> fresh(r.(Tuple))
+//@   ensures operands: arr(a) == old(arr(a)) && (is(other, Tuple) ==> arr(other.(Tuple)) == old(arr(other.(Tuple))))
+
+//@ func (Tuple).M__radd__(a, other) (r, err)
+//@   ensures ni: !is(other, Tuple) ==> r == NotImplemented && err == nil
+//@   ensures shape: is(other, Tuple) ==> err == nil && is(r, Tuple) && len(r.(Tuple)) == len(a) + len(other.(Tuple))
+//@   ensures left: is(other, Tuple) ==> forall k in [0, len(other.(Tuple))): r.(Tuple)[k] == old(other.(Tuple)[k])
+//@   ensures right: is(other, Tuple) ==> forall k in [0, len(a)): r.(Tuple)[len(other.(Tuple)) + k] == old(a[k])
+//@   ensures fresh: is(other, Tuple) && len(r.(Tuple)) > 0 ==> fresh(r.(Tuple))
+//@   ensures operands: arr(a) == old(arr(a)) && (is(other, Tuple) ==> arr(other.(Tuple)) == old(arr(other.(Tuple))))
 
 // ---- py/list.go (continued) ----
 
@@ -153,6 +172,8 @@ package py
 //@ func (*List).M__setitem__(l, key, value) (res, err)
 //@   requires nn: keyNN(key) && value != nil
 //@   modifies *
+//@   pureif isIntLike(key)
+//@   pureifmods mem(l.Items)
 //@   ensures idxok: isIntLike(key) && 0 <= norm(den(key), len(old(l.Items))) && norm(den(key), len(old(l.Items))) < len(old(l.Items)) ==> err == nil && len(l.Items) == len(old(l.Items)) && l.Items[norm(den(key), len(l.Items))] == value
 //@   ensures idxframe: isIntLike(key) ==> len(l.Items) == len(old(l.Items)) && forall k in [0, len(l.Items)): k != norm(den(key), len(l.Items)) ==> l.Items[k] == old(l.Items[k])
 //@   ensures idxerr: isIntLike(key) && inInt64(den(key)) && !(0 <= norm(den(key), len(old(l.Items))) && norm(den(key), len(old(l.Items))) < len(old(l.Items))) ==> raisesExc(err, IndexError)
@@ -180,6 +201,8 @@ package py
 //@ func (*List).M__delitem__(a, key) (res, err)
 //@   requires nn: keyNN(key)
 //@   modifies *
+//@   pureif isIntLike(key)
+//@   pureifmods a.Items, mem(a.Items)
 //@   ensures idxok: isIntLike(key) && 0 <= norm(den(key), len(old(a.Items))) && norm(den(key), len(old(a.Items))) < len(old(a.Items)) ==> err == nil && len(a.Items) == len(old(a.Items)) - 1
 //@   ensures idxbefore: isIntLike(key) && err == nil ==> forall k in [0, norm(den(key), len(old(a.Items)))): a.Items[k] == old(a.Items[k])
 //@   ensures idxafter: isIntLike(key) && err == nil ==> forall k in [norm(den(key), len(old(a.Items))), len(old(a.Items)) - 1): a.Items[k] == old(a.Items[k + 1])
@@ -193,6 +216,38 @@ package py
 //@     invariant len: keyOK(key) ==> len(a.Items) == pre(len(a.Items)) - j
 //@     invariant pos: keyOK(key) && j < slicelength ==> (step > 0 ==> i - j >= start) && (step < 0 ==> i <= pre(len(a.Items)) - 1 - j)
 //@     decreases slicelength - j
+
+// ---- list.sort / sorted: the adaptor handed to sort.Stable (C17, C10) ----
+// sort.Stable reads the length once; the key function and __lt__ may run user code that shrinks the list, so Swap and
+// Less must be safe for EVERY pair of indices (no requires on i, j).  Stability needs Less to be the strict
+// comparison of the two elements, with the operands exchanged (not the result negated) for reverse=True.
+
+//@ spec sortWF(s ptrSortable) bool = s.s != nil && s.s.l != nil && s.s.keyFunc != nil
+//@ spec inList(l *List, i int) bool = 0 <= i && i < len(l.Items)
+
+//@ func (ptrSortable).Len(s) (r)
+//@   requires wf: sortWF(s)
+//@   ensures len: r == len(s.s.l.Items)
+
+//@ func (ptrSortable).Swap(s, i, j)
+//@   requires wf: sortWF(s)
+//@   requires itemsnn: forall k in [0, len(s.s.l.Items)): s.s.l.Items[k] != nil
+//@   modifies *
+//@   ensures len: len(s.s.l.Items) == old(len(s.s.l.Items))
+//@   ensures swapped: old(inList(s.s.l, i)) && old(inList(s.s.l, j)) ==> s.s.l.Items[i] == old(s.s.l.Items[j]) && s.s.l.Items[j] == old(s.s.l.Items[i])
+//@   ensures others: old(inList(s.s.l, i)) && old(inList(s.s.l, j)) ==> forall k in [0, len(s.s.l.Items)): k != i && k != j ==> s.s.l.Items[k] == old(s.s.l.Items[k])
+//@   ensures noerr: old(inList(s.s.l, i)) && old(inList(s.s.l, j)) ==> s.s.firstErr == old(s.s.firstErr)
+//@   ensures outside: i >= old(len(s.s.l.Items)) ==> forall k in [0, len(s.s.l.Items)): s.s.l.Items[k] == old(s.s.l.Items[k])
+
+//@ func (ptrSortable).Less(s, i, j) (r)
+//@   requires wf: sortWF(s)
+//@   requires itemsnn: forall k in [0, len(s.s.l.Items)): s.s.l.Items[k] != nil
+//@   protects s.s
+//@   modifies *
+//@   ensures fwd: old(s.s.keyFunc) == None && !old(s.s.reverse) && old(inList(s.s.l, i)) && old(inList(s.s.l, j)) ==> opid[0] == 27 && opcall[0] == old(s.s.l.Items[i]) && opcall[1] == old(s.s.l.Items[j])
+//@   ensures rev: old(s.s.keyFunc) == None && old(s.s.reverse) && old(inList(s.s.l, i)) && old(inList(s.s.l, j)) ==> opid[0] == 27 && opcall[0] == old(s.s.l.Items[j]) && opcall[1] == old(s.s.l.Items[i])
+//@   ensures strict: old(s.s.keyFunc) == None && old(inList(s.s.l, i)) && old(inList(s.s.l, j)) && r ==> is(opcall[3], Bool) && den(opcall[3]) == 1
+//@   ensures outside: i >= old(len(s.s.l.Items)) || (0 <= i && j >= old(len(s.s.l.Items))) ==> !r
 
 // ---- py/range.go ----
 
